@@ -18,7 +18,9 @@ EXPLANATION = (
     "on the empty-transaction branch) and the deleting branch of _rollback, after the files; (R3) in the collector "
     "the marker read dominates the metadata read (a transaction whose marker is gone has finished, so a LATER "
     "metadata read sees its snapshot; the opposite order has a window); (R4) protection is applied to both sweeps."
-    " Also: (R5) the collector's marker handling fails closed (handler table of C07.R1); (R6) marker listings are complete and confined.")
+    " Also: (R5) the collector's marker handling fails closed (handler table of C07.R1); (R6) marker listings are complete and confined; "
+    "(R7) the collector honours every fresh marker: each listed *.inflight entry that is not stale reaches "
+    "protected.add(<target>), and the target of a marker whose payload names a path is that path.")
 NOT_DECIDED = "grace-period arithmetic versus run duration; the interleavings themselves"
 
 GC = "garbage_collector.GarbageCollector"
